@@ -147,7 +147,21 @@ func (fc *FnCtx) Generate() (err error) {
 	}
 	// block order: reverse postorder ignoring back edges
 	order := fc.rpo()
+	inUnrolled := map[*ssa.BasicBlock]*loopInfo{}
+	for _, li := range fc.loopList {
+		if li.lc.Unroll > 0 {
+			for b := range li.blocks {
+				inUnrolled[b] = li
+			}
+		}
+	}
 	for _, b := range order {
+		if li, ok := inUnrolled[b]; ok {
+			if b == li.head {
+				fc.unrollLoop(li, order)
+			}
+			continue
+		}
 		fc.block(b)
 	}
 	fc.reach = "true"
@@ -843,16 +857,114 @@ func (fc *FnCtx) merge(b *ssa.BasicBlock, ins []edgeOut) (*State, Term) {
 	return out, r
 }
 
-func (fc *FnCtx) block(b *ssa.BasicBlock) {
-	// gather incoming edges (non-back)
+func (fc *FnCtx) block(b *ssa.BasicBlock) { fc.blockWith(b, nil, false) }
+
+// unrollLoop executes a loop whose trip count is bounded by a literal (`loop k unroll N`) N+1 times symbolically and then
+// requires the back edge to be unreachable (unwinding assertion): complete, not a bounded stand-in.
+func (fc *FnCtx) unrollLoop(li *loopInfo, order []*ssa.BasicBlock) {
+	var body []*ssa.BasicBlock
+	for _, b := range order {
+		if li.blocks[b] && b != li.head {
+			body = append(body, b)
+		}
+	}
+	// values defined inside the loop must not be used after it (each round overwrites them)
+	for b := range li.blocks {
+		for _, in := range b.Instrs {
+			v, ok := in.(ssa.Value)
+			if !ok || v.Referrers() == nil {
+				continue
+			}
+			for _, r := range *v.Referrers() {
+				if r.Block() != nil && !li.blocks[r.Block()] {
+					if _, isAlloc := in.(*ssa.Alloc); isAlloc {
+						continue
+					}
+					unsupported("unroll: value %s defined in loop %d is used after the loop", v.Name(), li.ordinal)
+				}
+			}
+		}
+	}
 	var ins []edgeOut
-	for _, p := range b.Preds {
-		if fc.isBackEdge(p, b) {
+	for _, p := range li.head.Preds {
+		if fc.isBackEdge(p, li.head) {
 			continue
 		}
 		for _, eo := range fc.outs[p] {
-			if eo.to == b {
+			if eo.to == li.head {
 				ins = append(ins, eo)
+			}
+		}
+	}
+	exits := map[*ssa.BasicBlock][]edgeOut{}
+	for round := 0; round <= li.lc.Unroll; round++ {
+		if len(ins) == 0 {
+			break
+		}
+		for b := range li.blocks {
+			delete(fc.outs, b)
+		}
+		fc.blockWith(li.head, ins, true)
+		for _, b := range body {
+			fc.blockWith(b, nil, true)
+		}
+		ins = nil
+		for _, b := range append([]*ssa.BasicBlock{li.head}, body...) {
+			for _, eo := range fc.outs[b] {
+				if eo.to == li.head {
+					if eo.cond != "false" {
+						ins = append(ins, eo)
+					}
+				} else if !li.blocks[eo.to] {
+					exits[b] = append(exits[b], eo)
+				}
+			}
+		}
+	}
+	// unwinding assertion
+	var conds []Term
+	for _, eo := range ins {
+		conds = append(conds, eo.cond)
+	}
+	fc.reach = "true"
+	fc.curInstr = li.head.Instrs[0]
+	fc.oblige("unwind", not(or(conds...)), fmt.Sprintf("loop %d needs at most %d iterations", li.ordinal, li.lc.Unroll), []string{"C02"}, "")
+	// assertions at the loop's exits (`loop k exit-assert e`), evaluated over the locals
+	for _, b := range append([]*ssa.BasicBlock{li.head}, body...) {
+		for i := range exits[b] {
+			eo := exits[b][i]
+			for _, ea := range li.lc.ExitAsserts {
+				fc.st = eo.st.clone()
+				fc.reach = eo.cond
+				env := fc.loopEnv(fc.st, li)
+				t, err := env.EvalBool(ea.Expr)
+				if err != nil {
+					fc.w.warnings = append(fc.w.warnings, fmt.Sprintf("%s:%d: exit-assert not applicable: %v", ea.File, ea.Line, err))
+					continue
+				}
+				fc.oblige("assert", t, fmt.Sprintf("at the exit of loop %d: %s", li.ordinal, ea.Text), ea.Tags, ea.Label)
+			}
+		}
+	}
+	for b := range li.blocks {
+		fc.outs[b] = exits[b]
+	}
+}
+
+func (fc *FnCtx) blockWith(b *ssa.BasicBlock, given []edgeOut, unrolled bool) {
+	// gather incoming edges (non-back)
+	var ins []edgeOut
+	if given != nil {
+		ins = given
+	} else {
+		for _, p := range b.Preds {
+			if fc.isBackEdge(p, b) {
+				continue
+			}
+			for _, eo := range fc.outs[p] {
+				if eo.to == b {
+					ins = append(ins, eo)
+				}
 			}
 		}
 	}
@@ -882,7 +994,7 @@ func (fc *FnCtx) block(b *ssa.BasicBlock) {
 		fc.blockIns[b] = cs
 		fc.blockVias[b] = vias
 	}
-	if li, ok := fc.loops[b]; ok {
+	if li, ok := fc.loops[b]; ok && !unrolled {
 		fc.loopHead(li, fc.st, fc.reach)
 		fc.st = li.headState.clone()
 		fc.reach = li.headReach
@@ -917,6 +1029,9 @@ func (fc *FnCtx) block(b *ssa.BasicBlock) {
 	}
 	fc.outs[b] = outs
 	for _, eo := range outs {
+		if unrolled {
+			break
+		}
 		if fc.isBackEdge(b, eo.to) {
 			li := fc.loops[eo.to]
 			fc.curInstr = last
@@ -997,7 +1112,6 @@ func (g *GlobalInv) pkgName() string {
 	}
 	return ""
 }
-
 
 // initPhase: is fn (transitively) called from the package initialiser of pkgName? Such a function may run before the
 // package's global invariants hold, so it must not assume them.
